@@ -985,13 +985,26 @@ class Facts:
                                     if isinstance(ie, ast.IfExp):
                                         out |= self.flow.atoms(ie.test, fn,
                                                                bind)
-                            if isinstance(v, ast.Call) and _depth < 2:
-                                callee = self.flow.resolve_call(v, fn)
+                            vcalls = []
+                            if isinstance(v, ast.Call):
+                                vcalls = [v]
+                            elif isinstance(v, (ast.ListComp,
+                                                ast.GeneratorExp)) and \
+                                    isinstance(v.elt, ast.Call):
+                                # flags = [helper(x) for x in xs]; any(flags)
+                                vcalls = [v.elt]
+                            for vc in vcalls if _depth < 2 else []:
+                                callee = self.flow.resolve_call(vc, fn)
                                 if callee is not None and callee is not fn:
                                     b = self.flow._bind_args(
-                                        v, callee, fn, bind, 0, set())
+                                        vc, callee, fn, bind, 0, set())
                                     out |= self.return_control(
                                         callee, b, _depth + 1)
+                                    if vc is not v:
+                                        # what the helper's result is made of
+                                        for r_ in self.flow._returns(callee):
+                                            out |= self.flow.atoms(
+                                                r_, callee, b)
                         out |= self._unpacked_flag_control(nm.id, fn, bind,
                                                            _depth, _seen)
         return out
